@@ -122,13 +122,16 @@ def run(chk):
                           % (str(got)[:60], used, hx(d)[:60], c, L, len(td)), [ops1[i], ops2[j]], key="c08:extract")
         else:
             nontriv.add((c, L, len(td), h, len(d) > used))
+    cb_bad, cb_names = client_builders(chk, exe)
+    bad += cb_bad
+    chk.notes["client_builder_names_checked"] = cb_names
     for c_ in (c1, c2):
         if c_.rc != 0:
             i = c_.abort_index or 0
             ops = ops1 if c_ is c1 else ops2
             chk.violation("C harness aborted (sanitizer or crash), rc=%d on op: %s\n%s" % (c_.rc, ops[i][:200], c_.stderr[-1500:]), [ops[i]])
             bad += 1
-    chk.cov["evaluations"] = len(ops1) + len(ops2)
+    chk.cov["evaluations"] = len(ops1) + len(ops2) + cb_names
     chk.cov["distinct_nontrivial"] = len(nontriv)
     chk.cov["traces_validated_against_impl"] = len(ops1) + len(ops2)
     chk.cov["exhaustive"] = False
@@ -151,6 +154,100 @@ def run(chk):
         else:
             chk.violation("proof obligation no longer checks: " + chk.proof_detail,
                           ["# theorems of Props/C08.lean: " + ", ".join(vlib.prop_theorems("C08")), "# " + chk.proof_detail.replace("\n", "\n# ")], no_input=True)
+
+
+def client_builders(chk, exe_pure):
+    """the client's real message builders (send_chunk, send_ping, send_version, send_login, send_fragsize_probe,
+    send_set_downstream_fragsize) run in h_cli for long sequences in one process; every emitted query must satisfy the
+    property and the real server-side extraction must return what was sent.  Returns (#bad, #names checked)."""
+    import struct
+    import iodproto as P
+    import iodclient as C
+    rng, thorough = chk.rng, chk.tier == "thorough"
+    exe = vlib.build_cli()
+    cfgs = []
+    Ls = [100, 101, 119, 177, 254, 255] + [rng.randrange(100, 256) for _ in range(10 if thorough else 3)]
+    for L in Ls:
+        for c in CODECS:
+            tl = rng.choice([3, min(128, L - 24), rng.randrange(3, min(128, L - 24) + 1)])
+            cfgs.append((L, c, gen_domain(rng, tl), rng.randrange(16), bytes(rng.randrange(1, 256) for _ in range(rng.choice([0, 5, 32, 40]))),
+                         bytes(rng.randrange(256) for _ in range(rng.choice([1, 2, 50, 300, 700])))))
+    bad, names, ext_ops, ext_meta = 0, 0, [], []
+    for L, codec, td, uid, pw, payload in cfgs:
+        nchunks = 80
+        f1, f2, ver, seed = rng.choice([2, 100, 1200, 2047]), rng.choice([2, 100, 1200, 65535]), rng.choice([0x502, 0, 0xffffffff]), rng.randrange(1 << 31)
+        ops = ["ccfg %s %s %d 10 T 0 5 %d 1 0" % (hx(td), hx(pw), L, uid), "cenc " + codec, "start sendchunks %d %s" % (nchunks, hx(payload)),
+               "start sendone ping 0", "start sendone probe %d" % f1, "start sendone setfrag %d" % f2, "start sendone version %d" % (ver if ver < 2 ** 31 else ver - 2 ** 32),
+               "start sendone login %d" % seed, "start sendone ping 0"]
+        r = vlib.run_lines(exe, ops)
+        if r.rc != 0 or len(r.lines) < len(ops):
+            chk.violation("client harness aborted (sanitizer or crash, rc=%d) in the message builders:\n%s" % (r.rc, r.stderr[-1200:]), ops, key="c08:abort")
+            bad += 1
+            continue
+        rs = 0          # rand_seed after client_init with an empty rand() queue
+        items = []      # (query bytes, header length, codec, expected payload, exact length or None)
+        ev = r.lines[2].split(" | ")
+        txs = [unhx(e.split()[1]) for e in ev if e.startswith("tx ")]
+        sent = [int(e.split()[1]) for e in ev if e.startswith("sentlen ")]
+        for qb, n in zip(txs, sent):
+            items.append((qb, 5, codec, payload, n, "data chunk"))
+        def one(line):
+            t = [unhx(e.split()[1]) for e in line.split(" | ") if e.startswith("tx ")]
+            return t[0] if t else None
+        rsb = struct.pack(">H", rs); items.append((one(r.lines[3]), 1, "b32", bytes([uid, 0]) + rsb, None, "ping")); rs += 1
+        probe = bytearray([max(1, rs & 0xff)] * 256); probe[1] = max(1, (rs >> 8) & 0xff)
+        items.append((one(r.lines[4]), 5, codec, bytes(probe), None, "fragsize probe")); rs += 1
+        items.append((one(r.lines[5]), 1, "b32", bytes([uid]) + struct.pack(">H", f2) + struct.pack(">H", rs), None, "set fragsize")); rs += 1
+        items.append((one(r.lines[6]), 1, "b32", struct.pack(">I", ver) + struct.pack(">H", rs), None, "version")); rs += 1
+        items.append((one(r.lines[7]), 1, "b32", bytes([uid]) + C.login_hash(pw, seed) + struct.pack(">H", rs), None, "login")); rs += 1
+        items.append((one(r.lines[8]), 1, "b32", bytes([uid, 0]) + struct.pack(">H", rs), None, "ping"))
+        for k, (qb, h, cdc, expect, n, what) in enumerate(items):
+            names += 1
+            ctx = "(%s #%d, codec=%s L=%d |td|=%d)" % (what, k + 1, cdc, L, len(td))
+            why = None
+            if qb is None:
+                why = "no query was sent"
+            else:
+                try:
+                    m = P.parse(qb)
+                    name = m["qd"][0][0]
+                except P.Malformed as e:
+                    why = "the query is not a well-formed DNS message: %s" % e
+            if why is None:
+                if len(name) > L:
+                    why = "name of %d characters exceeds L=%d" % (len(name), L)
+                elif not legal_name(name):
+                    why = "illegal DNS name %r" % name[:60]
+                elif not name.endswith(b"." + td):
+                    why = "name %r does not end in the tunnel domain" % name[:60]
+                elif n is not None and not (1 <= n <= len(expect)):
+                    why = "builder reported %d of %d payload bytes" % (n, len(expect))
+            if why:
+                bad += 1
+                chk.violation("C08 fails on the implementation: %s %s" % (why, ctx), ops, key="c08:cli:" + why[:24])
+                continue
+            dlen = len(name) - len(td)
+            ext_ops.append("extract %s %d %d %s" % (cdc, h, dlen, hx(name)))
+            ext_meta.append((expect, n, ctx, ops, name, td))
+            ext_ops.append("qdl %s %s" % (hx(name), hx(td)))
+            ext_meta.append(("qdl", dlen, ctx, ops, name, td))
+            if td.count(b".") >= 1:
+                ext_ops.append("qdl %s %s" % (hx(name), hx(b"*." + td.split(b".", 1)[1])))
+                ext_meta.append(("qdl", dlen, ctx + " wildcard-served", ops, name, td))
+    c = vlib.run_parallel(exe_pure, ext_ops)
+    for op, line, (expect, n, ctx, ops, name, td) in zip(ext_ops, c.lines, ext_meta):
+        if expect == "qdl":
+            if parse(line).get("r") != str(n):
+                bad += 1
+                chk.violation("C08 fails on the implementation: the server computes data length %s for a name whose data part has %d characters %s" % (parse(line).get("r"), n, ctx), ops + ["# " + op], key="c08:cli:qdl")
+            continue
+        got = parse(line).get("out")
+        got = unhx(got) if got else b""
+        ok = (got == expect[:n]) if n is not None else (len(got) >= 1 and got == expect[:len(got)])
+        if not ok:
+            bad += 1
+            chk.violation("C08 fails on the implementation: server extraction yields %s, sent was %s (reported length %s) %s" % (hx(got)[:60], hx(expect)[:60], n, ctx), ops + ["# " + op], key="c08:cli:extract")
+    return bad, names
 
 
 def replay(chk, path):
